@@ -264,6 +264,38 @@ def check_product_rule(ctx):
     cj = m.func(CIRC + ".Circuit.jacobian")
     shape.match(ctx, "R15.1", CIRC + ".Circuit.jacobian", ret_expr(cj.body[-1:]), "sum((Digits(i, dim=len(variables)) @ self.grad(x, **params) for i, x in enumerate(variables)))", {},
                 mod=CIRC, node=cj, sig="circuit-jacobian", required="the gradients in the order of the variables, tagged by Digits(i)")
+    early = [s for s in cj.body if isinstance(s, ast.If)]
+    tests = {ast.unparse(s.test): s for s in early}
+    e0, e1 = tests.get("not variables"), tests.get("len(variables) == 1")
+    shape.match(ctx, "R15.1", CIRC + ".Circuit.jacobian:none", ret_expr(e0.body) if e0 else None, "Sum([], self.dom, self.cod)", {}, mod=CIRC, node=e0 or cj, sig="circuit-jacobian-none",
+                required="no variable: the empty sum typed like the circuit")
+    if e1 is not None:
+        shape.match(ctx, "R15.1", CIRC + ".Circuit.jacobian:one", ret_expr(e1.body), ["self.grad(variables[0], **params)", "self.grad(variables[-1], **params)"], {}, mod=CIRC, node=e1, sig="circuit-jacobian-one", required="one variable: its gradient")
+    ctx.ob("R15.1", CIRC + ".Circuit.jacobian:cases", set(tests) <= {"not variables", "len(variables) == 1"}, found=sorted(tests), required="only the empty and the one-variable case leave early", mod=CIRC, node=cj,
+           sig="circuit-jacobian-cases")
+    # the entry-wise layer: arrays of sympy expressions
+    tj = m.func(TEN + ".Tensor.jacobian")
+    ctx.analysed(TEN + ".Tensor.jacobian", TEN + ".Tensor.grad", TEN + ".Box.grad")
+    pre = [s for s in tj.body if isinstance(s, ast.Assign)]
+    shape.match_stmts(ctx, "R15.1", TEN + ".Tensor.jacobian:prelude", pre, ["dim = Dim(len(variables) or 1)", "result = Tensor.zeros(self.dom, dim @ self.cod)"], mod=TEN, node=tj, sig="tensor-jacobian-prelude",
+                      required="zeros of type dom -> Dim(number of variables) @ cod")
+    lp = next((s for s in tj.body if isinstance(s, ast.For)), None)
+    ctx.need(lp is not None and isinstance(lp.target, ast.Tuple) and len(lp.target.elts) == 2, "Tensor.jacobian: no loop over the variables")
+    shape.match(ctx, "R15.1", TEN + ".Tensor.jacobian:order", lp.iter, "enumerate(variables)", {}, mod=TEN, node=lp, sig="tensor-jacobian-order")
+    NJ = {lp.target.elts[0].id: "i", lp.target.elts[1].id: "var"}
+    shape.match_stmts(ctx, "R15.1", TEN + ".Tensor.jacobian:row", lp.body, ["onehot = numpy.zeros(dim or (1,))", "onehot[i] = 1", "result += Tensor(Dim(1), dim, onehot) @ self.grad(var)"], NJ, mod=TEN, node=lp,
+                      sig="tensor-jacobian-row", exact=True, required="the i-th basis vector of the new axis tensored with the gradient in the i-th variable")
+    shape.match(ctx, "R15.1", TEN + ".Tensor.jacobian:result", ret_expr(tj.body), "result", {}, mod=TEN, node=tj, sig="tensor-jacobian-result")
+    shape.match_stmts(ctx, "R15.1", TEN + ".Diagram.jacobian:prelude", [s for s in jf.body if isinstance(s, ast.Assign)], ["dim = Dim(len(variables) or 1)", "result = Sum([], self.dom, dim @ self.cod)"], mod=TEN, node=jf,
+                      sig="diagram-jacobian-prelude", required="the empty sum of type dom -> Dim(number of variables) @ cod")
+    tg = m.func(TEN + ".Tensor.grad")
+    shape.match(ctx, "R15.1", TEN + ".Tensor.grad", ret_expr(tg.body), ["self.map(lambda x: getattr(x, 'diff', lambda _, **__: 0)(var, **params))", "self.map(lambda x: getattr(x, 'diff', lambda *_, **__: 0)(var, **params))"],
+                {tg.args.args[1].arg: "var"}, mod=TEN, node=tg, sig="tensor-grad", required="entry-wise derivative (0 for plain numbers)")
+    bg = m.func(TEN + ".Box.grad")
+    call = ret_expr(bg.body)
+    fk = next((kk.value for kk in call.keywords if kk.arg == "func"), None) if isinstance(call, ast.Call) and ast.unparse(call.func) == "self.bubble" else None
+    shape.match(ctx, "R15.1", TEN + ".Box.grad:func", fk, ["lambda x: getattr(x, 'diff', lambda _: 0)(var)", "lambda x: getattr(x, 'diff', lambda _, **__: 0)(var)"], {bg.args.args[1].arg: "var"}, mod=TEN, node=bg,
+                sig="box-grad", required="the box in a bubble that differentiates every entry (0 for plain numbers)")
     sg = m.func(CIRC + ".Sum.grad")
     shape.match(ctx, "R15.1", CIRC + ".Sum.grad", ret_expr(sg.body), "sum((circuit.grad(var, **params) for circuit in self.terms))", {}, mod=CIRC, node=sg, sig="sum-grad",
                 required="the gradient of a sum is the sum of the gradients")
@@ -341,8 +373,9 @@ def check_scalars(ctx):
             x, y = res
             if isinstance(y, Inst) and y.cls.name != "Sum":
                 verdict = y.attrs.get("_mixed") is True
+                ydata = y.attrs.get("_data")
     ctx.need(verdict is not None, "Scalar.grad could not be executed for a pure scalar in mixed mode")
-    ctx.ob("R15.4", GATES + ".Scalar.grad:mode", verdict, found="a pure scalar's gradient in mixed mode is %s" % ("mixed" if verdict else "the pure scalar z' (evaluated as |z'|^2)"),
+    ctx.ob("R15.4", GATES + ".Scalar.grad:mode", verdict, found="a pure scalar's gradient in mixed mode is %s" % ("mixed" if verdict else "the pure scalar z' (evaluated as |z'|^2), built as %s with data %r" % (y.cls.name, ydata)),
            required="d|z|^2/dφ = 2 Re(conj(z) z') as a mixed scalar (default mode of Circuit.grad is mixed)", mod=r[0].mod, node=r[1], sig="scalar-mode")
     fn = m.func(GATES + ".Scalar.grad")
     rv = ret_expr(fn.body[-1:])
@@ -362,8 +395,9 @@ def check_spiders(ctx):
     fn = m.func(ZX + ".Spider.grad")
     ctx.analysed(ZX + ".Spider.grad")
     for colour, ref in (("Z", RZ), ("X", RX)):
-        bad = None
-        for (mm, nn) in ((1, 1), (1, 2)):
+        bads = []
+        for (mm, nn) in ((1, 1), (1, 2), (2, 1)):
+            bad = None
             for phi in PHASES:
                 env = dict(BASE, Scalar=rscalar, gradient=1.0, pi=math.pi)
                 env.update({"self.phase": phi, "self.dom": mm * [0], "self.cod": nn * [0], "type(self)": ref, "complex": complex})
@@ -386,12 +420,16 @@ def check_spiders(ctx):
                     raise AnalysisError("zx.Spider.grad outside the foldable vocabulary: %s" % e)
                 ctx.need(isinstance(term, T), "zx.Spider.grad does not return a closed term")
                 want = deriv(lambda p: ref(mm, nn, p).M, phi)
+                if (term.m, term.n) != (mm, nn):
+                    bad = "%s(%d, %d, φ).grad has %d inputs and %d outputs" % (colour, mm, nn, term.m, term.n)
+                    break
                 if not np.allclose(term.M, want, atol=1e-6):
                     bad = "%s(%d, %d, φ).grad at φ = %s denotes %s, the derivative of the spider is %s" % (colour, mm, nn, round(phi, 3), np.round(term.M, 3).tolist(), np.round(want, 3).tolist())
                     break
             if bad:
-                break
-        ctx.ob("R15.3", "%s.Spider.grad[%s]" % (ZX, colour), bad is None, found=bad or "equals the derivative", required="d/dφ of the spider under the standard interpretation",
+                bads.append(bad)
+        # every arity is reported (not only the first that fails): what is found identifies the defect, so another one at the same place is not mistaken for it
+        ctx.ob("R15.3", "%s.Spider.grad[%s]" % (ZX, colour), not bads, found="; ".join(bads) or "equals the derivative", required="d/dφ of the spider under the standard interpretation",
                mod=ZX, node=fn, sig="spider-" + colour)
 
 
@@ -497,6 +535,12 @@ def check(ctx):
     check_spiders(ctx)
     check_forwarding(ctx)
     check_bubble_chain_rule(ctx)
+    ctx.rule("R15.6", "the gradient of a tensor box is a bubble around it: bubbles are typed like their inside and evaluated by applying the function to the inside (C09 R09.7, R09.2)")
+    try:
+        ctx.depend("R15.6", "C09", "Box.grad returns self.bubble(func=...): the bubble must have the type of the box and the options must reach the Bubble class", rules={"R09.7"}, mod="discopy.tensor")
+    except AnalysisError:
+        if not any(not o.ok for o in ctx.obs):
+            raise
     ctx.floor("R15.5", 17)
     ctx.floor("R15.1", 8)
     ctx.floor("R15.2", 12)
